@@ -1,5 +1,12 @@
 """C01 - merged output is chronological with a deterministic tie rule.
 
+Part 2 (mixed kinds): text, fixed-struct, evtx and journal sources merged in one
+run. The hook trace's `print` events give the executed merge order as
+(source, instant); it must equal the reference merge over per-source instant
+lists that come from the generator (text, fixed-struct) or from the independent
+readers (evtx-crate dump, journalctl), and stdout must hold exactly the bytes of
+the sources' solo runs.
+
 Oracle: reference k-way merge (vlib.cases.merge_model) over generator-known
 instants; stdout must equal, byte for byte, the concatenation of the messages in
 model order. Every case is run under several worker schedules (hooked delays).
@@ -76,6 +83,7 @@ def run(ctx):
             perms = [tuple(range(n)), tuple(reversed(range(n)))] + rng.sample(perms, 2)
         seeds = [None] + [rng.randint(0, 1 << 30) for _ in range(nsched - 1)]
         jobs.append((s4, d, srcs, tz_min, perms, seeds))
+    run_mixed(ctx, s4)
     for job, results in zip(jobs, core.pmap(one_case, jobs)):
         _, d, srcs, tz_min, _, _ = job
         for order, ss, r, exp in results:
@@ -120,3 +128,119 @@ def run(ctx):
             elif len(ctx.samples) < 4 and nontrivial and ties:
                 ctx.sample({"argv": r.argv[1:], "sched": r.env.get("S4_VERIF_SCHED"), "sources": len(osrc),
                             "cross_source_tie_instants": ties, "stdout_head": r.out[:300]})
+
+
+# --------------------------------------------------------------------------
+# part 2: mixed kinds, decided on the hook trace
+
+def mixed_sources(ctx, rng, d, h):
+    """-> list of (kind, path, [instants ns in the order the source must deliver them])"""
+    from checks import c09, c10
+    from vlib import fixtures, fsgen, tracecheck
+    out = []
+    for p in fixtures.evtxs():
+        recs, _ = c10.dump(h, p)
+        if recs:
+            keyed = sorted(((t, i) for i, (rid, t) in enumerate(recs)))
+            out.append(("evtx", p, [t for t, i in keyed]))
+    for p in fixtures.journals():
+        exp = c09.parse_export(c09.journalctl(p, "export"))
+        # the instant s4 merges a journal entry by is its receive time (property C09)
+        ts = [int(c09.field(e, b"__REALTIME_TIMESTAMP")) * 1000 for e in exp]
+        out.append(("journal", p, ts))
+    return out
+
+
+def mixed_job(args):
+    s4, files, tz_min, trace, sched = args
+    extra = {"S4_VERIF_TRACE": trace}
+    if sched is not None:
+        extra["S4_VERIF_SCHED"] = "seed=%d,p=0.3,max_us=1500" % sched
+    return core.run([s4, "--color", "never", cases.tz_arg(tz_min)] + files, core.base_env(extra=extra, tmpdir=os.path.dirname(trace)), timeout=300)
+
+
+def run_mixed(ctx, s4):
+    from vlib import fsgen, tracecheck
+    rng = ctx.rng
+    h = core.build_harness()
+    d = ctx.casedir("mixed")
+    fixed = mixed_sources(ctx, rng, d, h)
+    jobs, meta = [], []
+    for cid in range(ctx.pick(120, 1500)):
+        cd = os.path.join(d, "m%05d" % cid)
+        os.makedirs(cd)
+        srcs = []
+        # anchor the generated sources near a fixture's time range so the kinds really interleave
+        anchor = rng.choice(fixed) if fixed and rng.random() < 0.8 else None
+        t0 = (rng.choice(anchor[2]) if anchor and anchor[2] else gen.instant(2023, 3, 10, 3, 49, 43)) // gen.NS * gen.NS
+        for sid in range(rng.choice([2, 3, 4, 5])):
+            k = rng.choice(["text", "text", "fs", "fix"])
+            if k == "fix" and fixed:
+                kind, p, ts = rng.choice(fixed)
+                if any(x[1] == p for x in srcs):
+                    continue
+                srcs.append((kind, p, ts))
+            elif k == "fs":
+                lay = rng.choice([l for l in fsgen.LAYOUTS.values() if getattr(l, "selectable", True)])
+                recs, inst = [], []
+                t = t0 // gen.NS + rng.randint(-3, 3)
+                for i in range(rng.choice([1, 3, 8])):
+                    t += rng.choice([0, 1, 1, 2])
+                    rec, vals = fsgen.make_record(lay, i, t, usec=rng.choice([0, 0, 500000]))
+                    recs.append(rec)
+                    inst.append(fsgen.record_instant_ns(lay, vals))
+                fd = os.path.join(cd, "fs%d" % sid)
+                os.makedirs(fd)
+                srcs.append(("fixedstruct", gen.write(os.path.join(fd, lay.filename), b"".join(recs)), sorted(inst)))
+            else:
+                s = cases.make_source(rng, sid, rng.choice([1, 4, 12]), t0 + rng.randint(-2, 2) * gen.NS, 0, mode=rng.choice(["ties", "dense", "subsec"]),
+                                      codec=rng.choice([None, None, "gz"]), chrono=True, ncont_max=1)
+                s.write(cd, rng)
+                srcs.append(("text", s.arg, [m.ns for m in s.msgs]))
+        if len(srcs) < 2:
+            continue
+        rng.shuffle(srcs)
+        for sched in (None, rng.randint(0, 1 << 30)):
+            trace = os.path.join(cd, "trace%s" % ("" if sched is None else "s"))
+            jobs.append((s4, [x[1] for x in srcs], 0, trace, sched))
+            meta.append((cd, srcs, trace))
+    for (cd, srcs, trace), r in zip(meta, core.pmap(mixed_job, jobs)):
+        if r.timed_out:
+            ctx.inconc("watchdog")
+            continue
+        evs = tracecheck.parse(trace) if os.path.exists(trace) else []
+        prints = [(e[4], int(e[5].split("dt=")[1].split(" ")[0])) for e in evs if e[3] == "print"]
+        kinds = tuple(sorted({x[0] for x in srcs}))
+        # reference merge over per-source instant lists (FIFO per source, ties by naming order)
+        pos = [0] * len(srcs)
+        want = []
+        while True:
+            best = None
+            for k, x in enumerate(srcs):
+                if pos[k] < len(x[2]):
+                    t = x[2][pos[k]]
+                    if best is None or t < best[0]:
+                        best = (t, k)
+            if best is None:
+                break
+            want.append((best[1], best[0]))
+            pos[best[1]] += 1
+        nties = len(want) - len({t for _, t in want})
+        ctx.evaluated(1, ("mixed", kinds, len(srcs), min(nties, 10)) if len(kinds) >= 2 else None)
+        ctx.count("mixed-kind runs")
+        ctx.count("mixed-kind prints checked", len(prints))
+        if r.rc not in (0, 1):
+            ctx.violation("C01|mixed|exit|rc=%s" % r.rc, "exit status %s" % r.rc, src_dir=cd, info={"argv": r.argv, "env": r.env, "stderr": r.err[-300:]})
+            continue
+        if prints != want:
+            if sorted(prints) == sorted(want):
+                k = next(i for i in range(len(want)) if prints[i] != want[i])
+                sig = "C01|mixed|order|%s" % ("cross-source-tie" if prints[k][1] == want[k][1] else "not-earliest-pending")
+                what = "print #%d is (source %d, t=%d), reference merge has (source %d, t=%d); kinds %s" % (k, prints[k][0], prints[k][1], want[k][0], want[k][1], [x[0] for x in srcs])
+            else:
+                sig = "C01|mixed|messages-differ|%s" % "+".join(kinds)
+                what = "%d prints, reference has %d messages; kinds %s" % (len(prints), len(want), [x[0] for x in srcs])
+            ctx.violation(sig, what, src_dir=cd, info={"argv": r.argv, "env": r.env, "stderr": r.err[-300:]})
+        elif len(ctx.samples) < 6 and len(kinds) >= 3 and nties:
+            ctx.sample({"mixed_kinds": [x[0] for x in srcs], "files": [os.path.basename(x[1]) for x in srcs], "messages": len(want), "equal-instant pairs": nties,
+                        "first_prints": prints[:5]})
